@@ -2,6 +2,7 @@ import Driver.Proto
 import PolyVerif.Gen.Sdf
 import PolyVerif.Model.SdfOps
 import PolyVerif.Model.SdfVarLine
+import PolyVerif.Gen.SdfOpsShape
 
 namespace Driver.C19
 open PolyVerif PolyVerif.Gen
@@ -44,7 +45,9 @@ def handle (op : String) (args : List String) : Option String := do
   | "c19.varline" => do          -- k, k × (x y z r), p
       let k ← nat? (← args.head?)
       let fs ← floats? args.tail
-      match SdfVarLine.VarryingThicknessLine (linePts fs k) with
+      -- answered from the interpretation of the statement lists extracted from line.go / operators.go (Gen/SdfOpsShape.lean);
+      -- Props/C19Src.lean: equal to the hand models SdfVarLine.VarryingThicknessLine / SdfOps.Union / SdfOps.Intersect
+      match Gen.SdfOpsShape.varLine.eval (SdfOpsIR.eval Gen.SdfOpsShape.union) (linePts fs k) with
       | some f => pure (fHex (f (v3 fs (4*k))))
       | none => pure "panic"
   | "c19.holds.varline_sign" => do   -- k, k × (x y z r), p, f(p): sign agrees with the union over consecutive pairs of the ball-union reference
@@ -61,7 +64,7 @@ def handle (op : String) (args : List String) : Option String := do
       let fs ← floats? args.tail
       let fl := spheres fs k
       let p := v3 fs (4*k)
-      let r := if op == "c19.union" then SdfOps.Union fl else SdfOps.Intersect fl
+      let r := if op == "c19.union" then SdfOpsIR.eval Gen.SdfOpsShape.union fl else SdfOpsIR.eval Gen.SdfOpsShape.intersect fl
       match r with
       | some f => pure (fHex (f p))
       | none => pure "panic"
